@@ -105,16 +105,69 @@ def run(chk):
     for sname in ("set_inst_options", "set_extra_reg", "set_inline_comment"):
         chk.ob(R2, "serialize_to|" + sname, (sname,) in st, loc=G.loc(ei), detail="dst->_emit can run without dst->%s(node->...) on that path" % sname)
     args = [re.sub(r"\s+", "", G.text(a)) for a in ex["args"]]
-    chk.ob(R2, "serialize_to|operand-order", len(args) == 5 and args[0].endswith("inst_id()") and args[1:4] == ["op[0]", "op[1]", "op[2]"] and args[4] == "op_ext",
-           loc=G.loc(ei), detail="dst->_emit(%s) does not pass inst_id, op[0], op[1], op[2], op_ext positionally" % ", ".join(args))
+
+    def operand_arg(a, k):
+        """-> (names op[k], masked by op_count): `op[k]`, or `op_count > k ? op[k] : <none>` (directly or through a local reference)"""
+        t = G.strip(a)
+        tx = G.e(t)
+        if tx is not None and tx["k"] == "ref" and tx.get("dk") == "local":
+            for y in G.ex.values():
+                if y["k"] == "decl":
+                    for v in y["vars"]:
+                        if v["did"] == tx.get("did") and v.get("init"):
+                            return operand_arg(v["init"], k)
+        if tx is not None and tx["k"] == "cond":
+            c = re.sub(r"\s+", "", G.text(tx["c"]))
+            alts = [re.sub(r"\s+", "", G.text(z)) for z in (tx["a"], tx["b"])]
+            m = re.match(r"^op_count>(\d+)[uU]?$|^op_count>=(\d+)[uU]?$|^(\d+)[uU]?<op_count$", c)
+            bound = None
+            if m:
+                bound = int(m.group(1)) if m.group(1) else (int(m.group(2)) - 1 if m.group(2) else int(m.group(3)))
+            return (alts[0] == "op[%d]" % k, bound == k and alts[0] == "op[%d]" % k)
+        return (re.sub(r"\s+", "", G.text(t)) == "op[%d]" % k, False)
+    oa = [operand_arg(ex["args"][k + 1], k) for k in range(3)] if len(args) == 5 else []
+    chk.ob(R2, "serialize_to|operand-order", len(args) == 5 and args[0].endswith("inst_id()") and all(o[0] for o in oa) and args[4] == "op_ext",
+           loc=G.loc(ei), detail="dst->_emit(%s) does not pass inst_id, op[0], op[1], op[2], op_ext positionally" % ", ".join(args)[:160])
+    chk.ob(R2, "serialize_to|operands-masked-by-op-count", bool(oa) and all(o[1] for o in oa), loc=G.loc(ei),
+           detail="dst->_emit receives op[0..2] without regard to op_count(): operands that are not part of the instruction (dropped by set_op_count(), "
+                  "never written after new_inst_node()) are encoded", key="replaystate|operands-masked")
     # the scratch array handed to _emit as op_ext: `op_ext = <array> + 3`
     arr = None
-    for x in G.ex.values():
+    local_arrays = {v["name"] for x in list(G.ex.values()) + list(ser.ex.values()) if x["k"] == "decl" for v in x["vars"] if re.search(r"Operand_?\s*\[", v["ty"])}
+    direct = []
+    defs = []
+    for i, x in G.ex.items():
         if x["k"] == "binop" and x["op"] == "=" and re.sub(r"\s+", "", G.text(x["lhs"])) == "op_ext":
-            mm = re.match(r"^(\w+)\+3$", re.sub(r"\s+", "", G.text(x["rhs"])))
-            if mm:
+            defs.append((i, x["rhs"]))
+        elif x["k"] == "decl":
+            for v in x["vars"]:
+                if v["name"] == "op_ext" and v.get("init"):
+                    defs.append((i, v["init"]))
+    for i, rhs in defs:
+        # every alternative of a conditional initialiser counts
+        alts, stack = [], [rhs]
+        while stack:
+            t = G.strip(stack.pop())
+            tx = G.e(t)
+            if tx is not None and tx["k"] == "cond":
+                stack += [tx["a"], tx["b"]]
+            else:
+                alts.append(t)
+        for t in alts:
+            txt = re.sub(r"\s+", "", G.text(t))
+            mm = re.match(r"^(\w+)\+3u?$", txt)
+            if mm and mm.group(1) in local_arrays:
                 arr = mm.group(1)
-    chk.need(arr is not None, "%s: `op_ext = <array> + 3` not found" % G.name)
+            elif txt.endswith("no_ext"):
+                pass
+            else:
+                direct.append((i, txt))
+    chk.ob(R2, "serialize_to|op_ext-from-scratch", not direct, loc=G.loc(direct[0][0]) if direct else G.loc(ei),
+           detail="op_ext is taken from `%s`, not from a scratch array that is filled per node: operands stored behind op_count() (stale arena contents, "
+                  "operands dropped by set_op_count) reach the assembler" % (direct[0][1] if direct else ""), key="replaystate|op_ext-scratch")
+    if direct:
+        arr = arr or "?"
+    chk.need(arr is not None, "%s: no definition of op_ext found" % G.name)
     # writes of the scratch array happen once per node: inside the per-node loop of serialize_to, or in the helper that is called from it
     posS = ser.block_of()
     anchor = call_in_ser if G is not ser else ei
@@ -387,6 +440,8 @@ def run(chk):
                key="finalizesiblings|%s" % c)
 
     nodeadd.run(chk)
+    from lib import emitsiblings
+    emitsiblings.run(chk)
 
     return chk.finish(
         level="other",
